@@ -279,6 +279,11 @@ func (r *lcRun) run(b Behaviour, idx int) {
 			return r.main.S.Close()
 		case "instance", "instance-twice":
 			return r.inst.DB.Close()
+		case "instance-cancelled":
+			// the context the instance was created under has ended (its owner cancelled it, or it expired) before Close is called
+			r.inst.CancelContext()
+			time.Sleep(5 * time.Millisecond)
+			return r.inst.DB.Close()
 		case "drop":
 			return r.main.S.Drop()
 		}
